@@ -9,7 +9,7 @@ from __future__ import annotations
 import importlib.util
 import sys
 
-from pyiron_workflow import Function, Workflow
+from pyiron_workflow import Function, Macro, Workflow
 
 
 class Base(Function):
@@ -47,6 +47,16 @@ class Boom(Function):
             raise RuntimeError("boom")
         o = a
         return o
+
+
+class M(Macro):
+    """an unrelated COMPOSITE class with connected children (loading node for the class check)"""
+
+    def graph_creator(self, a=0):
+        self.n = H(a=a)
+        self.m = H(a=self.n.outputs.o)
+        out = self.m.outputs.o
+        return out
 
 
 class WfSub(Workflow):
